@@ -258,6 +258,45 @@ def blockD(ctx, case):
     ctx.evaluations += n - 1
 
 
+def blockE(ctx, case):
+    """messages around and above the default 1024-byte item size under raised / lowered item limits: the signing, message
+    and checking instructions cover the same bytes under every limit"""
+    total, limit = case
+    seed = ctx.seed
+    ks = keyseed(seed, 0)
+    pk = refed.public_key(ks)
+    per = total // 3
+    cache = {'sigfield1': env.sym(seed, 'big1', per), 'sigfield2': env.sym(seed, 'big2', per), 'sigfield5': env.sym(seed, 'big5', total - 2 * per)}
+    n = 0
+    for flag in (0x00, 0x02, 0x10, 0x12):
+        m = b''.join(cache[k] for k in sorted(cache) if not flag >> (int(k[-1]) - 1) & 1)
+        fits = len(m) <= limit
+        want_sig = sigbytes(refed.sign(ks, m), flag)
+        kw = dict(stack_max_item_size=limit)
+        n += 1
+        ctx.state(('E', total, limit, flag))
+        r, st, _ = run(op('GET_MESSAGE') + bytes([flag]), cache, **kw)
+        ctx.ran(); ctx.trans()
+        if (r is None) != fits or (fits and st != [m]):
+            ctx.violation({'op': 'GET_MESSAGE', 'clause': 'message under a non-default item limit'}, f'len {len(m)} limit {limit}: {r!r}')
+        r, st, _ = run(push(ks) + op('SIGN') + bytes([flag]), cache, **kw)
+        ctx.ran(); ctx.trans(2)
+        if fits and (r is not None or st != [want_sig]):
+            ctx.violation({'op': 'SIGN', 'clause': 'signs the same message GET_MESSAGE returns, under every item limit'},
+                          f'message {len(m)} bytes, item limit {limit}, flag {flag:02x}: {r!r}')
+        r, st, _ = run(push(want_sig) + push(pk) + op('CHECK_SIG') + b'\xff', cache, **kw)
+        ctx.ran(); ctx.trans(3)
+        if fits and (r is not None or st != [TRUE]):
+            ctx.violation({'op': 'CHECK_SIG', 'clause': 'checks the same message GET_MESSAGE returns, under every item limit'},
+                          f'message {len(m)} bytes, item limit {limit}, flag {flag:02x}: {r!r} {st}')
+        r, st, _ = run(push(ks) + op('SIGN') + bytes([flag]) + push(pk) + op('CHECK_SIG') + bytes([flag]), cache, **kw)
+        ctx.ran(); ctx.trans(4)
+        if fits and (r is not None or st != [TRUE]):
+            ctx.violation({'op': 'SIGN->CHECK_SIG', 'clause': 'sign-then-check under a non-default item limit'},
+                          f'message {len(m)} bytes, item limit {limit}, flag {flag:02x}: {r!r} {st}')
+    ctx.evaluations += n - 1
+
+
 def blocks(tier, seed):
     q = tier == 'quick'
     if q:
@@ -276,6 +315,8 @@ def blocks(tier, seed):
         Block('A_flag_x_allowed_matrix', A, blockA, 'all 256 flags x %d allowed masks, honest + 8 one-bit-off presentations' % len(masks)),
         Block('B_presence_x_flag', B, blockB, 'all 256 presence subsets x all 256 flags: GET_MESSAGE, SIGN, SIGN->CHECK_SIG(_VERIFY)'),
         Block('C_single_bit_corruptions', C, blockC, 'every bit of key, signature, covered and excluded fields; lengths', nshards=len(C)),
+        Block('E_item_limits', [(t, l) for t in (90, 1023, 1024, 1025, 1536, 3000, 6000) for l in (100, 1024, 1025, 2048, 8192)], blockE,
+              'message sizes around 1024 x stack_max_item_size in {100, 1024, 1025, 2048, 8192} x flags', nshards=35),
         Block('D_stack_forms', D, blockD, 'SIGN_STACK / CHECK_SIG_STACK over message lengths, lengths and bit corruptions', nshards=len(D)),
     ]
 
